@@ -837,6 +837,9 @@ int __wrap_poll(struct pollfd *pfds, nfds_t n, int to_ms)
 }
 
 /* ------------------------------------------------------------------ scenario */
+extern void __sanitizer_set_death_callback(void (*cb)(void));
+static void flush_on_death(void) { fflush(stdout); }
+
 int main(int argc, char **argv)
 {
 	static char line[MAXLINE];
@@ -846,7 +849,8 @@ int main(int argc, char **argv)
 	static char exclbuf[256];
 
 	if (f == NULL) { perror("scenario"); return 2; }
-	setvbuf(stdout, NULL, _IOFBF, 1 << 16);
+	setvbuf(stdout, NULL, _IOLBF, 0);
+	__sanitizer_set_death_callback(flush_on_death);
 	signal(SIGPIPE, SIG_IGN);
 	iv_set_fatal_msg_handler(fatal_handler);
 
